@@ -89,6 +89,8 @@ fn typed_roundtrip(v: &Value) -> Result<Option<(String, Value)>, String> {
         Value::Dict(x) => typed_rt!(x, Dict, Value::Dict),
         Value::Grid(x) => typed_rt!(x, Grid, Value::Grid),
         Value::List(x) => typed_rt!(x, List, Value::List),
+        // Str has a typed deserialiser only: feed it the Value's own text
+        Value::Str(_) => typed_rt!(v, Str, Value::Str),
         _ => Ok(None),
     }
 }
